@@ -93,9 +93,12 @@ def cases(tier, seed, shard, nshards):
     idx = 0
     for pre, handler, after, outcome in itertools.product(PRE, HANDLER, AFTER, OUTCOME):
         for susp in (0, 1):
-            for mode in ("with", "reuse", "decorator"):
-                if mode == "decorator" and outcome == "GeneratorExit":
+            for mode in ("with", "reuse", "decorator", "decorate_then_enter"):
+                if mode in ("decorator", "decorate_then_enter", "enter_then_decorate") and outcome == "GeneratorExit":
                     continue  # the documented deviation is modelled for the with-statement form only
+                if mode in ("decorate_then_enter", "enter_then_decorate") and \
+                        (handler.startswith("yield_again") or after.startswith("yield_again")):
+                    continue  # (as for "reuse": what follows a generator that broke the protocol is not compared)
                 if mode == "reuse" and (handler.startswith("yield_again") or after.startswith("yield_again")):
                     # a generator that yields twice is left suspended by asyncstdlib and closed by contextlib (3.12);
                     # what a further use of such a broken manager does is outside the property
@@ -215,9 +218,37 @@ def trial(factory, case):
 
         log.append(("returned", await fn(5, b=6)))
 
+    async def mixed_form(decorate_first):
+        # ONE manager object used both ways: first as a decorator (each call gets a context of its own), then
+        # directly in a with statement (which uses the object's own generator, untouched by the calls)
+        manager = cm(1, k=2)
+
+        @manager
+        async def fn(a, b=None):
+            log.append(("entered", a, b))
+            if exc is not None:
+                raise exc
+            return "body-result"
+
+        async def call():
+            try:
+                log.append(("returned", await fn(5, b=6)))
+            except BaseException as err:  # noqa: BLE001
+                log.append(("call-raised", type(err).__name__, err is exc))
+
+        # (decorated calls AFTER the direct use are not compared: contextlib drops the manager's arguments when it
+        # is entered, so its decorated function then fails with an AttributeError - an incidental behaviour)
+        await call()
+        await call()
+        async with manager as v:
+            log.append(("entered-directly", v))
+        log.append("after-with")
+
     async def body():
         if case.get("mode") == "decorator":
             return await decorated_form()
+        if case.get("mode") in ("decorate_then_enter", "enter_then_decorate"):
+            return await mixed_form(case["mode"] == "decorate_then_enter")
         manager = cm(1, k=2)
         try:
             async with manager as v:
